@@ -3,7 +3,73 @@ axolotl control layer), restricted to the stanzas that must be answered: notific
 call stanzas, pings, messages with unsupported payloads."""
 import boot  # noqa: F401
 from corr import c06
-from corr.c06 import setup, run_case, shrink, nontrivial  # noqa: F401
+from corr.c06 import setup, shrink as _c06_shrink, nontrivial as _c06_nontrivial  # noqa: F401
+from core import oracle
+
+
+def nontrivial(stream, case):
+    if stream == "encmedia":
+        return (stream, repr(case))
+    return _c06_nontrivial(stream, case)
+
+
+def shrink(stream, case):
+    if stream == "encmedia":
+        return ()
+    return _c06_shrink(stream, case)
+
+
+def run_case(chk, stream, case):
+    if stream == "encmedia":
+        return run_encmedia(chk, case)
+    return c06.run_case(chk, stream, case)
+
+
+def run_encmedia(chk, case):
+    """an ENCRYPTED media stanza whose <enc mediatype=…> names a kind the library does not know (the decryption itself is stood in for: the
+    receive layer gets a manager that returns the plaintext): the decrypted content is unpresentable — it is answered with exactly one receipt"""
+    from lib import stanzas
+    from yowsup.structs import ProtocolTreeNode as N
+    fails = []
+    stack, bottom, top = c06.get_stack(chk, "1111", 1)
+    recv = [s for s in stack.getLayer(2).sublayers if type(s).__name__ == "AxolotlReceivelayer"][0]
+    # a payload the bundled schema has no field for (field 60 / 61, length-delimited): what a contacts-array or live-location message looks like to it
+    tag = (case["field"] << 3) | 2
+    plaintext = bytes([(tag & 0x7f) | 0x80, tag >> 7, 3, 1, 2, 3])
+
+    class Manager(object):
+        registration_id = 4711
+
+        def decrypt_msg(self, *a, **kw):
+            return plaintext
+
+        def decrypt_pkmsg(self, *a, **kw):
+            return plaintext
+    saved = recv._manager
+    recv._manager = Manager()
+    mid = "ENCMEDIA%d%s" % (case["field"], case["mediatype"])
+    attrs = {"id": mid, "from": stanzas.JID, "type": "media", "t": "1500000000", "notify": "peer"}
+    if case["group"]:
+        attrs["from"], attrs["participant"] = stanzas.GJID, stanzas.JID
+    node = N("message", attrs, [N("enc", {"type": case["enc"], "v": "2", "mediatype": case["mediatype"]}, None, b"\x33\x0a\x21\x05ciphertext")])
+    del bottom.sent[:], top.received[:]
+    what = "encrypted media stanza (enc type %s%s) whose mediatype is %r, decrypting to content the schema has no field for" % (case["enc"], ", in a group" if case["group"] else "", case["mediatype"])
+    try:
+        import contextlib
+        import io
+        with contextlib.redirect_stdout(io.StringIO()):
+            bottom.toUpper(node)
+    except Exception as e:
+        fails.append(oracle("C07:unsupported-payload-receipt:encrypted:raises", "%s: handling raises %s: %s" % (what, type(e).__name__, e)))
+        return fails
+    finally:
+        recv._manager = saved
+    chk.hit("encmedia:" + case["mediatype"])
+    rec = [n for n in bottom.sent if n.tag == "receipt" and n["id"] == mid]
+    if len(rec) != 1:
+        fails.append(oracle("C07:unsupported-payload-receipt:encrypted", "%s: %d receipts were sent (%s), exactly one is due" % (
+            what, len(rec), ", ".join("<receipt type=%r to=%r>" % (n["type"], n["to"]) for n in rec) or "none")))
+    return fails
 
 PID = "C07"
 GEN = ["handlemaps"]
@@ -17,6 +83,7 @@ RULE = ("notification descriptors of every recognised type (picture set/delete, 
 RULE += (' The relevant stanzas also with an unknown element before / after their own children.')
 RULE += (' Unpresentable payloads include content kinds newer than the bundled schema (unknown fields), with and without a piggy-backed key distribution.')
 RULE += (' Status notifications with empty / absent / non-ASCII / non-text bodies.')
+RULE += (" stream 'encmedia': encrypted media stanzas (msg / pkmsg, direct and in a group) whose <enc mediatype> names a kind the library does not know, the decryption stood in for by a manager double: exactly one receipt.")
 ASSUMPTIONS = c06.ASSUMPTIONS + ["a picture notification that is neither set nor delete is rejected with an error by design (excluded by the property)"]
 
 
@@ -47,6 +114,11 @@ def cases(chk):
         for body in (1, 2, 3, 4):
             for enc in (0, 1):
                 yield "recv", {"d": dict(d, body=body), "flags": "1111", "enc": enc}
+    # encrypted media stanzas of kinds the library does not know (contact arrays, live locations, whatever comes next)
+    for mt in ("contact_array", "livelocation", "product", "kind_of_next_year"):
+        for enc in ("msg", "pkmsg"):
+            for group in (0, 1):
+                yield "encmedia", {"mediatype": mt, "enc": enc, "group": group, "field": 60 if mt != "livelocation" else 61}
     # the same stanza 2-4 times under the same id on the same stack: every occurrence is acknowledged
     for d in [x for x in c06.SUPPORTED if _relevant(x) and x["tag"] in ("iq", "call", "notification")]:
         yield "recv", {"d": d, "flags": r.choice(c06.FLAGSETS), "enc": r.choice([0, 1]), "repeat": r.choice([2, 3, 4])}
